@@ -199,11 +199,52 @@ def gen_ser():
     db = function_body(fw, r"decodeUTF16SurrogatePair\s*\([^)]*\)\s*\{", "XalanFormatterWriter::decodeUTF16SurrogatePair")
     dm = need(r"if\s*\(\s*isUTF16LowSurrogate\s*\(\s*theLowSurrogate\s*\)\s*==\s*false\s*\)\s*\{\s*throwInvalidUTF16SurrogateException.*?\}\s*return\s*\(\s*\(\s*theHighSurrogate\s*-\s*(\w+)\s*\)\s*<<\s*(\w+)\s*\)\s*\+\s*theLowSurrogate\s*-\s*(\w+)\s*\+\s*(\w+)\s*;",
               db, "decodeUTF16SurrogatePair body")
+    # unpaired surrogates are errors in every character-data path of the three writers
+    LOW = r"isUTF16LowSurrogate\s*\(\s*%s\s*\)\s*==\s*true\s*\)\s*\{\s*throwInvalidUTF16SurrogateException"
+    b = function_body(u8, r"void\s+write\s*\(\s*const\s+XalanDOMChar\s*\*\s*theChars\s*,\s*size_type\s+theLength\s*\)\s*\{", "XalanUTF8Writer::write(const XalanDOMChar*, size_type)")
+    need(r"if\s*\(\s*" + LOW % r"theChars\s*\[\s*i\s*\]" + r".*?\}\s*else\s+if\s*\(\s*isUTF16HighSurrogate", b, "UTF-8 write(chars, length): low-surrogate check first")
+    b = function_body(u8, r"size_type\s+write\s*\(\s*const\s+XalanDOMChar\s+chars\s*\[\s*\]\s*,\s*size_type\s+start\s*,\s*size_type\s+length\s*\)\s*\{", "XalanUTF8Writer::write(chars, start, length)")
+    need(r"if\s*\(\s*" + LOW % "ch" + r".*?\}\s*else\s+if\s*\(\s*isUTF16HighSurrogate", b, "UTF-8 write(chars, start, length): low-surrogate check first")
+    b = function_body(u8, r"size_type\s+writeCDATAChar\s*\([^)]*\)\s*\{", "XalanUTF8Writer::writeCDATAChar")
+    need(r"if\s*\(\s*outsideCDATA\s*==\s*true\s*\)\s*\{.*?'<'\s*,\s*'!'\s*,\s*'\['\s*,\s*'C'\s*,\s*'D'\s*,\s*'A'\s*,\s*'T'\s*,\s*'A'\s*,\s*'\['\s*\}\s*;\s*write\s*\(\s*s_cdataOpenString\s*,.*?\)\s*;\s*outsideCDATA\s*=\s*false\s*;\s*\}\s*return\s+write\s*\(\s*chars\s*,\s*start\s*,\s*length\s*\)\s*;",
+         b, "UTF-8 writeCDATAChar reopens the section")
+    b = function_body(u16, r"size_type\s+write\s*\(\s*const\s+value_type\s+chars\s*\[\s*\]\s*,\s*size_type\s+start\s*,\s*size_type\s+length\s*\)\s*\{", "XalanUTF16Writer::write(chars, start, length)")
+    need(r"if\s*\(\s*isUTF16HighSurrogate\s*\(\s*ch\s*\)\s*==\s*true\s*\)\s*\{\s*if\s*\(\s*start\s*\+\s*1\s*>=\s*length\s*\)\s*\{\s*throwInvalidUTF16SurrogateException.*?\}\s*else\s+if\s*\(\s*isUTF16LowSurrogate\s*\(\s*chars\s*\[\s*start\s*\+\s*1\s*\]\s*\)\s*==\s*false\s*\)\s*\{\s*throwInvalidUTF16SurrogateException.*?\}\s*else\s*\{\s*write\s*\(\s*ch\s*\)\s*;\s*write\s*\(\s*chars\s*\[\s*\+\+start\s*\]\s*\)\s*;\s*\}\s*\}\s*else\s+if\s*\(\s*" + LOW % "ch" + r".*?\}\s*else\s*\{\s*write\s*\(\s*ch\s*\)\s*;\s*\}\s*return\s+start\s*;",
+         b, "UTF-16 write(chars, start, length) validates surrogates")
+    b = function_body(u16, r"size_type\s+writeCDATAChar\s*\([^)]*\)\s*\{", "XalanUTF16Writer::writeCDATAChar")
+    need(r"if\s*\(\s*outsideCDATA\s*==\s*true\s*\)\s*\{.*?charLessThanSign\s*,\s*XalanUnicode::charExclamationMark\s*,\s*XalanUnicode::charLeftSquareBracket\s*,\s*XalanUnicode::charLetter_C\s*,\s*XalanUnicode::charLetter_D\s*,\s*XalanUnicode::charLetter_A\s*,\s*XalanUnicode::charLetter_T\s*,\s*XalanUnicode::charLetter_A\s*,\s*XalanUnicode::charLeftSquareBracket\s*\}\s*;\s*write\s*\(\s*s_cdataOpenString\s*,.*?\)\s*;\s*outsideCDATA\s*=\s*false\s*;\s*\}\s*return\s+write\s*\(\s*chars\s*,\s*start\s*,\s*length\s*\)\s*;",
+         b, "UTF-16 writeCDATAChar reopens the section")
+    for fn in ("writePIChars", "writeCommentChars"):
+        b = function_body(u16, r"void\s+%s\s*\([^)]*\)\s*\{" % fn, "XalanUTF16Writer::" + fn)
+        need(r"for\s*\(\s*size_type\s+i\s*=\s*0\s*;\s*i\s*<\s*theLength\s*;\s*\+\+i\s*\)\s*\{\s*i\s*=\s*write\s*\(\s*data\s*,\s*i\s*,\s*theLength\s*\)\s*;\s*\}", b, "UTF-16 %s loop" % fn)
+        b = function_body(oth, r"void\s+%s\s*\([^)]*\)\s*\{" % fn, "XalanOtherEncodingWriter::" + fn)
+        need(r"for\s*\(\s*size_type\s+i\s*=\s*0\s*;\s*i\s*<\s*theLength\s*;\s*\+\+i\s*\)\s*\{\s*i\s*=\s*write\s*\(\s*data\s*,\s*i\s*,\s*theLength\s*,\s*m_exceptionFunctor\s*\)\s*;\s*\}", b, "other-encoding %s loop (throwing functor, ++i)" % fn)
+    b = function_body(oth, r"size_type\s+write\s*\(\s*const\s+XalanDOMChar\s+chars\s*\[\s*\]\s*,\s*size_type\s+start\s*,\s*size_type\s+length\s*,\s*TranscodingFailureFunctor\s*&\s*failureHandler\s*\)\s*\{", "XalanOtherEncodingWriter::write(chars, start, length, handler)")
+    need(r"\}\s*else\s+if\s*\(\s*" + LOW % "ch", b, "other-encoding write: low-surrogate check")
+    b = function_body(oth, r"size_type\s+writeCDATAChar\s*\([^)]*\)\s*\{", "XalanOtherEncodingWriter::writeCDATAChar")
+    need(r"\}\s*else\s+if\s*\(\s*" + LOW % "theChar", b, "other-encoding writeCDATAChar: low-surrogate check")
+    # comments and PIs: runs between line feeds through writeCommentChars / writePIChars
+    b = function_body(uni, r"void\s+writeNormalizedData\s*\([^)]*\)\s*\{", "FormatterToXMLUnicode::writeNormalizedData")
+    need(r"size_type\s+firstIndex\s*=\s*0\s*;\s*for\s*\(\s*size_type\s+i\s*=\s*0\s*;\s*i\s*<\s*theLength\s*;\s*\+\+i\s*\)\s*\{\s*const\s+XalanDOMChar\s+theChar\s*=\s*theData\s*\[\s*i\s*\]\s*;"
+         r"\s*if\s*\(\s*XalanUnicode::charLF\s*==\s*theChar\s*\)\s*\{\s*writeRawData\s*\(\s*theData\s*\+\s*firstIndex\s*,\s*i\s*-\s*firstIndex\s*,\s*isComment\s*\)\s*;\s*outputNewline\s*\(\s*\)\s*;\s*firstIndex\s*=\s*i\s*\+\s*1\s*;\s*\}"
+         r"\s*else\s+if\s*\(\s*m_charPredicate\.isCharRefForbidden\s*\(\s*theChar\s*\)\s*\)\s*\{\s*throwInvalidXMLCharacterException.*?\}\s*\}\s*writeRawData\s*\(\s*theData\s*\+\s*firstIndex\s*,\s*theLength\s*-\s*firstIndex\s*,\s*isComment\s*\)\s*;",
+         b, "writeNormalizedData structure")
+    b = function_body(uni, r"void\s+writeRawData\s*\([^)]*\)\s*\{", "FormatterToXMLUnicode::writeRawData")
+    need(r"if\s*\(\s*isComment\s*==\s*true\s*\)\s*\{\s*m_writer\.writeCommentChars\s*\(\s*theData\s*,\s*theLength\s*\)\s*;\s*\}\s*else\s*\{\s*m_writer\.writePIChars\s*\(\s*theData\s*,\s*theLength\s*\)\s*;\s*\}", b, "writeRawData structure")
     # CDATA look-ahead
     cd = function_body(uni, r"writeCDATAChars\s*\([^)]*\)\s*\{", "FormatterToXMLUnicode::writeCDATAChars")
     cm = need(r"if\s*\(\s*theChar\s*==\s*XalanUnicode::charRightSquareBracket\s*&&\s*length\s*-\s*i\s*>\s*(\w+)\s*&&\s*XalanUnicode::charRightSquareBracket\s*==\s*chars\s*\[\s*i\s*\+\s*1\s*\]\s*&&\s*XalanUnicode::charGreaterThanSign\s*==\s*chars\s*\[\s*i\s*\+\s*2\s*\]\s*\)",
               cd, "writeCDATAChars ']]>' test")
     need(r"outsideCDATA\s*=\s*false\s*;\s*i\s*\+=\s*2\s*;", cd, "writeCDATAChars skips two units after a split")
+    need(r"if\s*\(\s*XalanUnicode::charLF\s*==\s*theChar\s*\)\s*\{\s*outputNewline\s*\(\s*\)\s*;\s*\}\s*else\s+if\s*\(\s*m_charPredicate\.isForbidden\s*\(\s*theChar\s*\)\s*\)\s*\{\s*throwInvalidXMLCharacterException.*?\}"
+         r"\s*else\s+if\s*\(\s*XalanUnicode::charCR\s*==\s*theChar\s*\|\|\s*\(\s*XMLVersion\s*==\s*XML_VERSION_1_1\s*&&\s*\(\s*XalanUnicode::charNEL\s*==\s*theChar\s*\|\|\s*XalanUnicode::charLSEP\s*==\s*theChar\s*\|\|\s*m_charPredicate\.isCharRefForbidden\s*\(\s*theChar\s*\)\s*\)\s*\)\s*\)"
+         r"\s*\{\s*if\s*\(\s*outsideCDATA\s*==\s*false\s*\)\s*\{\s*m_writer\.write\s*\(\s*m_constants\.s_cdataCloseString\s*,\s*m_constants\.s_cdataCloseStringLength\s*\)\s*;\s*outsideCDATA\s*=\s*true\s*;\s*\}\s*writeNumericCharacterReference\s*\(\s*theChar\s*\)\s*;\s*\}"
+         r"\s*else\s*\{\s*i\s*=\s*m_writer\.writeCDATAChar\s*\(\s*chars\s*,\s*i\s*,\s*length\s*,\s*outsideCDATA\s*\)\s*;\s*\}",
+         cd, "writeCDATAChars: forbidden -> error; CR / 1.1 NEL, LSEP, controls -> leave the section and write a reference")
+    for k, v in (("charCR", 13), ("charNEL", 133), ("charLSEP", 8232), ("charLF", 10)):
+        m = need(r"static\s+const\s+XalanDOMChar\s+%s\s*=\s*(\w+)\s*;" % k, strip_comments(sf.read("PlatformSupport/XalanUnicode.hpp")), "XalanUnicode::" + k)
+        if num(m.group(1)) != v:
+            raise AnchorError("XalanUnicode::%s is %s, the model assumes %d" % (k, m.group(1), v))
 
     o = HEADER
     o += "From Coq Require Import NArith List.\nImport ListNotations.\nLocal Open Scope N_scope.\n\n"
